@@ -37,6 +37,8 @@ struct Monitor {
     uint64_t seq = 0;
     // error-callback = simulated abort
     jmp_buf *abort_target = nullptr;
+    // the documented contract of a replaced compression function: "one or more contiguous 64-byte blocks"
+    int64_t compress_contract_violations = 0;
     // return values
     int64_t bad_ret = 0; std::string bad_ret_where;
 
